@@ -740,3 +740,63 @@ def rule_t8(prog, rep, rid='T8'):
 
 def canon_path(p):
     return p
+
+
+def rule_fixup_bypass(prog, rep, rid='A5'):
+    """In a recursive restructuring function, every path from a recursive descent to a return evaluates each of the
+    fix-up conditions that follow the descent (the `if`s whose body calls a rotation / colour flip): nothing returns
+    between the descent and the way-up repairs - in particular not on an error status such as a failed allocation,
+    because the way down may already have split nodes."""
+    res, identity = restructurers(prog)
+    rep.rule(rid, 'no return between a recursive descent and the way-up fix-ups: every path from the recursive call to a '
+                  'return evaluates every fix-up condition that follows it (error statuses included)')
+    for f in sorted(prog.funcs_in(UNIT), key=lambda x: x.line or 0):
+        if f.body is None or f.name not in res:
+            continue
+        cfg = f.cfg
+        rec_nodes = [n for n in cfg.nodes if isinstance(n.ast, dict) and n.kind != 'macro' and any(
+            x.get('kind') == 'CallExpr' and prog.callee_name(x) == f.name for x in walk(n.ast))]
+        if not rec_nodes:
+            continue
+        # fix-up ifs: then-branch calls a restructurer (or a colour flip)
+        guards = []
+        for x in walk(f.body):
+            if x.get('kind') == 'IfStmt':
+                ch = children(x)
+                if len(ch) >= 2 and any(y.get('kind') == 'CallExpr' and prog.callee_name(y) in (res | identity) and prog.callee_name(y) != f.name
+                                        for y in walk(ch[1])):
+                    ids = {id(y) for y in walk(ch[0])}
+                    cn = [n for n in cfg.nodes if n.kind == 'cond' and isinstance(n.ast, dict) and id(n.ast) in ids]
+                    if cn:
+                        guards.append((x, min(cn, key=lambda n: n.id)))
+        # reachability from the recursive calls
+        def reach(starts, avoid=None):
+            seen = set()
+            work = list(starts)
+            while work:
+                n = work.pop()
+                if n.id in seen or (avoid is not None and n.id == avoid):
+                    continue
+                seen.add(n.id)
+                for (s, _l) in n.succs:
+                    work.append(s)
+            return seen
+        after = reach(rec_nodes)
+        post = [(x, g) for (x, g) in guards if g.id in after and not any(g.id == r.id for r in rec_nodes)]
+        # only guards that come after the descent in every execution order: not those that can reach a recursive call
+        post = [(x, g) for (x, g) in post if not (reach([g]) & {r.id for r in rec_nodes})]
+        for (x, g) in post:
+            rep.instance(rid)
+            # successors of the recursive-call nodes, avoiding the guard: can the exit be reached?
+            starts = [s for r in rec_nodes for (s, _l) in r.succs]
+            seen = reach(starts, avoid=g.id)
+            ok = cfg.exit.id not in seen
+            rep.oblige(rid, ok, {'function': f.name, 'fixup_line': x.get('_line'), 'condition': canon(children(x)[0])[:60]})
+            if not ok:
+                # name the bypassing return
+                rets = [r for r in cfg.returns() if r.id in seen]
+                line = min((r.line or 0) for r in rets) if rets else x.get('_line')
+                rep.violation(rid, f, line, 'bypass:%s' % x.get('_line'),
+                              '%s can return at line %s after a recursive descent without evaluating the way-up fix-up at line %s (%s): '
+                              'the way down may already have restructured the subtree, so the tree is left invalid on that path'
+                              % (f.name, line, x.get('_line'), canon(children(x)[0])[:50]))
